@@ -195,4 +195,9 @@ theorem swap_hyps_of_rep (H : Ptr2.Heap) (eA eB : Nat) (A B : Ptr2.Hdr) (xsA fsA
     rw [hb.endp] at hl
     exact hs l (by simp [Ptr2.lastOr_mem xsB l hl])
 
+/-- `PoolList::append` exists with 0 … 7 constructor arguments and, as the translator checks on the current header, EVERY one of
+    them is `linkFreeItem(new (allocateFreeItem()) T(a, b, …))` with the parameters in their order: the linking of all eight
+    arities is the translated `linkFreeItem` of `gen_pool_link` (the arities differ only in the constructor call). -/
+theorem gen_pool_append_arities : SeqLink.PoolList.appendArities = List.range 8 := by decide
+
 end Nstd.Seq
